@@ -265,6 +265,14 @@ package vm
 //@ loop 0 invariant allGoOn()
 // C04: the loop body runs in a fresh child of the scope of the loop statement
 //@ callsite (*runInfoStruct).runSingleStmt * [C04] samescope: runInfo.env == old(runInfo.env)
+// C16: `for v in ch` receives from the channel it was given (ctx.Done() first, C02), presents every received value to
+// one run of the body, and ends - without an error - when the channel is closed and drained
+//@ traces reflect.Select
+//@ callsite reflect.Select * [C16] recvcase: len(arg0) == 2 && arg0[1].Dir == reflect.SelectRecv && arg0[1].Chan == value
+//@ callsite (*runInfoStruct).runSingleStmt * [C16] afterrecv: ncalls() >= 1 && calleeIs(ncalls()-1, "reflect.Select")
+//@ callsite (*runInfoStruct).runSingleStmt * [C16] afterrecv2: res(ncalls()-1) == 0
+//@ ensures [C16] closedends: runInfo.err == nil && !lastBody(ErrBreak) ==> ncalls() >= 1 && calleeIs(ncalls()-1, "reflect.Select") && res(ncalls()-1) == 1
+//@ ensures [C16 C02] interrupted: ncalls() >= 1 && calleeIs(ncalls()-1, "reflect.Select") && res(ncalls()-1) == 2 ==> runInfo.err == ErrInterrupt
 
 //@ func (*runInfoStruct).runCForStmt
 //@ props C04 C08 C02
@@ -369,6 +377,14 @@ package vm
 //@ requires stmt != nil
 //@ ensures [C08] nosentinel: runInfo.err != ErrBreak && runInfo.err != ErrContinue && runInfo.err != ErrReturn
 //@ callsite reflect.Select * [C02] ctxfirst: ctxFirst(arg0, runInfo.ctx)
+// C16: `v, ok = <-ch`: ok receives whether a value arrived; v is assigned the received value only when one arrived: after a
+// closed and drained channel the value target is not assigned at all and the statement yields nil
+//@ traces reflect.Select
+//@ callsite reflect.Select * [C16] recvcase: len(arg0) == 2 && arg0[1].Dir == reflect.SelectRecv && arg0[1].Chan == unwrap(res2(0))
+//@ callsite (*runInfoStruct).invokeLetExpr * [C16] assigned: ncalls() >= 2 && calleeIs(1, "reflect.Select") && ((runInfo.expr == stmt.OkExpr && runInfo.rv == ite(res(1) == 0, trueValue, falseValue)) || (runInfo.expr == stmt.LHS && res(1) == 0 && runInfo.rv == res2(1)))
+//@ ensures [C16] okassigned: ncalls() >= 2 && calleeIs(1, "reflect.Select") && res(1) != 2 && stmt.OkExpr != nil ==> ncalls() >= 3 && calleeIs(2, "invokeLetExpr") && arg(2) == stmt.OkExpr
+//@ ensures [C16] closed: ncalls() >= 2 && calleeIs(1, "reflect.Select") && res(1) == 1 ==> runInfo.rv == nilValue && ncalls() <= 3 && (ncalls() == 3 ==> stmt.OkExpr != nil && arg(2) == stmt.OkExpr)
+//@ ensures [C16] received: ncalls() >= 2 && calleeIs(1, "reflect.Select") && res(1) == 0 ==> calleeIs(ncalls()-1, "invokeLetExpr") && arg(ncalls()-1) == stmt.LHS
 
 //@ func (*runInfoStruct).runDefers
 //@ props C04 C09 C02
